@@ -360,6 +360,11 @@ def main(argv):
         for f in fails:
             # direct attribution = the obligation's own label / the function's safety tag; cone attribution (the function is only
             # reachable from functions carrying the property) is weaker: it needs a concrete witness before it is reported
+            # panic freedom (C09) is an obligation of every function in its call cone: a body-level refutation there (index, slice boundary,
+            # overflow, unwrap, a callee's precondition) is C09's own, whether or not the function carries a safety tag
+            if f["fn"] and ".body." in f["obligation"] and not f.get("hint_assert"):
+                for sp in CONFIG.get("safety_props", ["C09"]):
+                    if f["fn"] in cone.get(sp, ()) and sp not in f["props"]: f["props"] = sorted(set(f["props"]) | {sp}); f["props_own"] = sorted(set(f.get("props_own", [])) | {sp})
             f["props_direct"] = sorted(f["props"])
             if f["fn"]:
                 f["props"] = sorted(set(f["props"]) | set(p for p in PROP_IDS if f["fn"] in cone[p]))
